@@ -251,6 +251,9 @@ func genVal(t *rapid.T, vt VT, lbl string, decoyTags []string, small bool) *Val 
 		if rapid.IntRange(0, 3).Draw(t, lbl+"SubMs") == 0 {
 			v.Sub = rapid.SampledFrom([]int32{1, 499999, 500000, 999999}).Draw(t, lbl+"Sub")
 		}
+		if rapid.IntRange(0, 3).Draw(t, lbl+"Zoned") == 0 {
+			v.Zone = rapid.SampledFrom([]int32{120, -300, 330, 765, -1}).Draw(t, lbl+"Zone")
+		}
 	case TBool:
 		v.B = rapid.Bool().Draw(t, lbl)
 	}
